@@ -108,6 +108,9 @@ pub fn shrink_term(t: &TD, fails: &mut dyn FnMut(&TD) -> bool, budget: usize) ->
                 return cur;
             }
             // strictly decreasing in (size, canon length, canon text)
+            if !td_wellformed(&c) {
+                continue;
+            }
             let (cc, kc) = (c.canon(), cur.canon());
             if (c.size(), nonword_atoms(&c), cc.len(), &cc) >= (cur.size(), nonword_atoms(&cur), kc.len(), &kc) {
                 continue;
